@@ -72,7 +72,50 @@ class Skip(Exception):
     pass
 
 
-def record_life(data0, idx, lazy, sched, rng, label, recalc=False):
+# ---------------------------------------------------------------- the Edit action: size-boundary edits
+def _cff_string_index_size(cffdata):
+    """data size of the String INDEX of a compiled CFF table (independent walk of header, Name and Top DICT INDEX)"""
+    def index(pos):
+        count = int.from_bytes(cffdata[pos:pos + 2], "big")
+        if count == 0:
+            return pos + 2, 0
+        osz = cffdata[pos + 2]
+        last = int.from_bytes(cffdata[pos + 3 + count * osz:pos + 3 + (count + 1) * osz], "big")
+        return pos + 3 + (count + 1) * osz + last - 1, last - 1
+
+    pos = cffdata[2]
+    pos, _ = index(pos)   # Name INDEX
+    pos, _ = index(pos)   # Top DICT INDEX
+    _, size = index(pos)  # String INDEX
+    return size
+
+
+def edits_for(font):
+    """(name, tag, function) edits that change ONE table's content and no field another table derives from it.
+    The CFF edits place the String INDEX data size on the offSize boundaries of the CFF INDEX format
+    (1 -> 2 byte offsets at 255/256, 2 -> 3 at 65535/65536), where the encoder's size decision sits."""
+    out = []
+    if "CFF " in font:
+        cff = font["CFF "].cff
+        top = cff.topDictIndex[0]
+        top.Notice = "q" * 50
+        try:
+            base = _cff_string_index_size(font["CFF "].compile(font))
+        except Exception:
+            base = None
+        if base is not None:
+            for target in (254, 255, 256, 257, 65534, 65535, 65536, 65537):
+                n = 50 + target - base
+                if n >= 1:
+                    out.append(("cff-string-index-%d" % target, "CFF ", (lambda f, n=n: setattr(f["CFF "].cff.topDictIndex[0], "Notice", "q" * n))))
+    if "name" in font:
+        out.append(("name-string", "name", lambda f: f["name"].setName("Verif \u00e9\u20ac edit", 1, 3, 1, 0x409)))
+    if "OS/2" in font:
+        out.append(("os2-weight", "OS/2", lambda f: setattr(f["OS/2"], "usWeightClass", 1 + f["OS/2"].usWeightClass % 999)))
+    return out
+
+
+def record_life(data0, idx, lazy, sched, rng, label, recalc=False, edit=None):
     """Run one schedule on a real TTFont and return the event trace."""
     from fontTools.ttLib import TTFont
 
@@ -131,6 +174,11 @@ def record_life(data0, idx, lazy, sched, rng, label, recalc=False):
         touched = [t for t in tags if f.isLoaded(t)]
         for t in touched:
             events.append({"a": "Access", "t": t, "c": content.get(t, 0), "raw": t in nodec})
+        if edit is not None and g == 0:
+            # the Edit action: change one decoded table in place; its new content is what the next generation must decode
+            ename, etag, efn = edit
+            efn(f)
+            events.append({"a": "Edit", "t": etag, "c": ci(table_xml(f, etag)), "edit": ename})
         events.append({"a": "SaveBegin"})
         buf = io.BytesIO()
         try:
@@ -163,6 +211,17 @@ def job(args):
     else:
         label, data = src
     try:
+        if sched.startswith("edit:"):
+            from fontTools.ttLib import TTFont
+
+            probe = TTFont(io.BytesIO(data), fontNumber=idx, recalcTimestamp=False)
+            wanted = sched[5:]
+            cand = [e for e in edits_for(probe) if e[0] == wanted]
+            if not cand:
+                raise Skip("edit %s not applicable" % wanted)
+            t = record_life(data, idx, lazy, "all", rng, label, recalc, edit=cand[0])
+            t["sched"] = sched
+            return t
         return record_life(data, idx, lazy, sched, rng, label, recalc)
     except Skip as e:
         return {"skip": str(e), "label": label}
@@ -197,6 +256,31 @@ def run(chk):
         for lazy in ((None, True, False) if thorough else (rng.choice([None, True, False]),)):
             for s in (scheds if thorough else ["all", rng.choice(["subset", "ensure"])]):
                 jobs.append(("bytes", (common.rel(p), b), 0, lazy, s, chk.seed, False))
+    # generated TrueType fonts (hairlines, nested composites, point steps on the WOFF2 triplet-class boundaries) in
+    # every container flavour: files the loader accepts that no corpus font resembles
+    for k in range(30 if thorough else 8):
+        rs = random.Random("c01-synth-%d-%d" % (k, chk.seed))
+        sf = fonts.synthetic_glyf_font(rs, nglyphs=rs.randint(4, 12), max_depth=rs.randint(1, 3))
+        sf.recalcTimestamp = False
+        for fl in (None, "woff", "woff2"):
+            sf.flavor = fl
+            buf = io.BytesIO()
+            sf.save(buf)
+            for lazy in ((None, True, False) if thorough else (rs.choice([None, True, False]),)):
+                jobs.append(("bytes", ("synthetic#%d.%s" % (k, fl or "sfnt"), buf.getvalue()), 0, lazy, "all", chk.seed, False))
+    # Edit lives: Open, Access(all), Edit(one table), Save, Reopen, Access(all), Save
+    cffm = [(p, i) for p, i in members if p.lower().endswith((".otf", ".otc"))]
+    rng.shuffle(cffm)
+    must = [(p, i) for p, i in members if p.endswith("TestOTF.otf")]
+    enames = ["cff-string-index-%d" % t for t in (254, 255, 256, 257, 65534, 65535, 65536, 65537)] + ["name-string", "os2-weight"]
+    for p, i in (must + cffm)[: (40 if thorough else 5)]:
+        for en in enames:
+            jobs.append(("path", p, i, rng.choice([None, True, False]), "edit:" + en, chk.seed, False))
+    glyfm = [(p, i) for p, i in members if p.lower().endswith(".ttf")]
+    rng.shuffle(glyfm)
+    for p, i in glyfm[: (20 if thorough else 4)]:
+        for en in ("name-string", "os2-weight"):
+            jobs.append(("path", p, i, rng.choice([None, True, False]), "edit:" + en, chk.seed, False))
     res = common.pmap(job, jobs, chunksize=4)
     traces = []
     nodec = set()
